@@ -40,6 +40,6 @@ let run_k t =
 let run_case line =
   let t = tokens line in
   match t with
-  | "X" :: _ -> run_x t
+  | "X" :: _ | "Y" :: _ -> run_x t
   | "K" :: _ -> run_k t
   | _ -> failwith ("bad wire case: " ^ line)
